@@ -100,8 +100,59 @@ def mutate(rng, text, other):
 
 
 # ------------------------------------------------------------------------------------------------ grammar
+GEN_LIKE_IDS = ['clipPath1', 'clipPath2', 'mask1', 'filter1', 'filter2', 'pattern1', 'linearGradient1', 'radialGradient1', 'image1', 'result1']
+RESULT_NAMES = ['result%d' % i for i in range(1, 10)] + ['result', 'result0', 'result10', 'a', 'SourceGraphic', 'SourceAlpha', 'BackgroundImage', 'FillPaint', '']
+PRIMS = ['feFlood', 'feOffset', 'feGaussianBlur', 'feBlend', 'feComposite', 'feMerge', 'feTile', 'feColorMatrix', 'feMorphology', 'feTurbulence',
+         'feComponentTransfer', 'feDisplacementMap', 'feDropShadow', 'feImage', 'feConvolveMatrix', 'feDiffuseLighting', 'feSpecularLighting']
+
+
+def filter_doc(rng):
+    """filters whose primitives mix explicit `result` names (also names that look like generated ones) with missing ones,
+    `in` / `in2` references to earlier, later and unknown results, applied to rendered elements; ids that look generated"""
+    defs = ''
+    fids = []
+    for fi in range(1 + rng.below(3)):
+        fid = rng.choice(GEN_LIKE_IDS + ['f%d' % fi])
+        fids.append(fid)
+        prims = ''
+        for _ in range(1 + rng.below(6)):
+            t = rng.choice(PRIMS)
+            a = ''
+            if rng.below(2):
+                a += ' result="%s"' % rng.choice(RESULT_NAMES)
+            if rng.below(2):
+                a += ' in="%s"' % rng.choice(RESULT_NAMES)
+            if rng.below(4) == 0:
+                a += ' in2="%s"' % rng.choice(RESULT_NAMES)
+            inner = ''
+            if t == 'feMerge':
+                inner = ''.join('<feMergeNode in="%s"/>' % rng.choice(RESULT_NAMES) for _ in range(rng.below(4)))
+            elif t in ('feDiffuseLighting', 'feSpecularLighting'):
+                inner = rng.choice(['<feDistantLight/>', '<fePointLight/>', '<feSpotLight/>', ''])
+            elif t == 'feComponentTransfer':
+                inner = rng.choice(['<feFuncR type="table" tableValues="0 1"/>', '<feFuncA type="gamma"/>', ''])
+            elif t == 'feImage':
+                a += ' xlink:href="#%s"' % rng.choice(['r1', 'nope'] + GEN_LIKE_IDS)
+            prims += '<%s%s>%s</%s>' % (t, a, inner, t)
+        defs += '<filter id="%s"%s>%s</filter>' % (fid, rng.choice(['', ' filterUnits="userSpaceOnUse" x="0" y="0" width="50" height="50"',
+                                                                      ' primitiveUnits="objectBoundingBox"', ' xlink:href="#%s"' % rng.choice(GEN_LIKE_IDS)]), prims)
+    other = ''.join('<%s id="%s">%s</%s>' % (t, i, c, t) for t, i, c in
+                    rng.sample([('clipPath', 'clipPath1', '<rect width="9" height="9"/>'), ('mask', 'mask1', '<rect width="9" height="9" fill="white"/>'),
+                                ('pattern', 'pattern1', '<rect width="1" height="1"/>'), ('linearGradient', 'linearGradient1', '<stop offset="0"/><stop offset="1" stop-color="red"/>'),
+                                ('radialGradient', 'radialGradient1', '<stop offset="0"/><stop offset="1" stop-color="red"/>'), ('symbol', 'image1', '<rect width="3" height="3"/>')], 3))
+    body = ''.join('<rect id="%s" x="%d" y="5" width="20" height="20" filter="%s" %s/>'
+                   % (rng.choice(['r1', 'r2', 'clipPath2']), 5 + 25 * i,
+                      ' '.join('url(#%s)' % rng.choice(fids + ['nope']) for _ in range(1 + rng.below(2))),
+                      rng.choice(['', 'clip-path="url(#clipPath1)"', 'mask="url(#mask1)"', 'fill="url(#pattern1)"', 'fill="url(#linearGradient1)"',
+                                  'stroke="url(#radialGradient1)"', 'opacity="0.5"']))
+                   for i in range(1 + rng.below(3)))
+    return '<svg %s width="100" height="100">%s%s%s<use xlink:href="#image1" width="5" height="5"/></svg>' % (NS, defs, other, body)
+
+
 def value_for(rng, att, ids):
     r = rng.below(10)
+    if att in ('result', 'in', 'in2'):
+        return rng.choice(RESULT_NAMES)
     if att in ('systemLanguage', 'requiredFeatures', 'requiredExtensions', 'lang', 'font-family', 'class') and rng.below(2):
         return rng.choice(UNI + ['en', 'en-US', 'ru, en', 'de'])
     if rng.below(25) == 0:
@@ -152,7 +203,7 @@ TEXTY = ('text', 'tspan', 'textPath', 'tref', 'title', 'desc', 'style')
 
 def grammar_doc(rng, els, ats, size):
     """random document over every element / attribute name usvg knows"""
-    ids = ['g%d' % i for i in range(8)]
+    ids = ['g%d' % i for i in range(8)] + GEN_LIKE_IDS
     count = [0]
 
     def element(tag, depth):
